@@ -23,7 +23,44 @@ impl Identity {
 //@include shims/access_statics.rs
 //@extract AccessControlReceiverCondition
 //@extract AccessControlTargetCondition
-//@extract AccessControlCreate
+// AccessControlCreate (server/access/profiles.rs): the attribute and class grant lists are vectors whose elements have a schema name
+pub trait KvxNamed { spec fn name(&self) -> String; }
+pub uninterp spec fn attr_name(a: Attribute) -> String;
+impl KvxNamed for Attribute { open spec fn name(&self) -> String { attr_name(*self) } }
+impl KvxNamed for AttrString { uninterp spec fn name(&self) -> String; }
+impl Attribute { #[verifier::external_body] pub fn as_str(&self) -> (r: &str) ensures r.as_key() == self.name() { unimplemented!() } }
+impl AttrString { #[verifier::external_body] pub fn as_str(&self) -> (r: &str) ensures r.as_key() == self.name() { unimplemented!() } }
+#[verifier::external_body] #[verifier::reject_recursive_types(T)] pub struct KvxNameVec<T> { p: core::marker::PhantomData<T> }
+impl<T> View for KvxNameVec<T> { type V = Seq<T>; uninterp spec fn view(&self) -> Seq<T>; }
+#[verifier::external_body] #[verifier::reject_recursive_types(T)] pub struct KvxNameIter<'a, T> { p: core::marker::PhantomData<&'a T> }
+// an iterator of borrowed names, observed as the set of names it yields
+#[verifier::external_body] pub struct KvxStrIter<'a> { p: core::marker::PhantomData<&'a str> }
+impl<'a> KvxStrIter<'a> {
+    pub uninterp spec fn set(&self) -> Set<&'a str>;
+    // Iterator::collect::<BTreeSet<&str>>(): exactly the yielded names
+    #[verifier::external_body] pub fn collect(self) -> (r: BTreeSet<&'a str>) ensures r@ == self.set() { unimplemented!() }
+}
+pub open spec fn kvx_maps_into<'a, T: 'a, F: Fn(&'a T) -> &'a str>(f: F, x: T, s: Set<&'a str>) -> bool { exists|c: &'a str| #[trigger] s.contains(c) && f.ensures((&x,), c) }
+impl<'a, T> KvxNameIter<'a, T> { pub uninterp spec fn items(&self) -> Seq<T>;
+    // Iterator::map: yields f(x) for every element x, nothing else
+    #[verifier::external_body] pub fn map<F: Fn(&'a T) -> &'a str>(self, f: F) -> (r: KvxStrIter<'a>)
+        requires forall|i: int| 0 <= i < self.items().len() ==> f.requires((&#[trigger] self.items()[i],))
+        ensures forall|c: &'a str| #[trigger] r.set().contains(c) ==> exists|i: int| 0 <= i < self.items().len() && f.ensures((&#[trigger] self.items()[i],), c),
+                forall|i: int| 0 <= i < self.items().len() ==> kvx_maps_into(f, #[trigger] self.items()[i], r.set())
+    { unimplemented!() } }
+impl<T> KvxNameVec<T> { #[verifier::external_body] pub fn iter(&self) -> (r: KvxNameIter<'_, T>) ensures r.items() == self@ { unimplemented!() } }
+pub struct AccessControlCreate { pub acp: AccessControlProfile, pub classes: KvxNameVec<AttrString>, pub attrs: KvxNameVec<Attribute> }
+// Entry accessors used by create_filter_entry (entry.rs get_ava_names / get_ava_iter_iutf8): the attribute names present, the class values
+impl Entry<EntryInit, EntryNew> {
+    pub uninterp spec fn attr_names(&self) -> Set<String>;
+    #[verifier::external_body] pub fn get_ava_names(&self) -> (r: KvxStrIter<'_>)
+        ensures forall|c: &str| #[trigger] r.set().contains(c) ==> self.attr_names().contains(c.as_key()),
+                forall|n: String| #[trigger] self.attr_names().contains(n) ==> exists|c: &str| r.set().contains(c) && #[trigger] c.as_key() == n { unimplemented!() }
+    #[verifier::external_body] pub fn get_ava_iter_iutf8(&self, a: Attribute) -> (r: Option<KvxStrIter<'_>>)
+        ensures a == Attribute::Class ==> ((r is Some) == (self.classes() is Some)),
+                (a == Attribute::Class && r is Some) ==> (forall|c: &str| #[trigger] r->Some_0.set().contains(c) ==> self.classes()->Some_0.contains(c.as_key())),
+                (a == Attribute::Class && r is Some) ==> (forall|n: String| #[trigger] self.classes()->Some_0.contains(n) ==> exists|c: &str| r->Some_0.set().contains(c) && #[trigger] c.as_key() == n) { unimplemented!() }
+}
 //@extract AccessControlCreateResolved
 //@extract IResult
 //@extract CreateResult
@@ -33,6 +70,50 @@ pub open spec fn builtin_new(e: &Entry<EntryInit, EntryNew>) -> bool { e.uuid_op
 pub open spec fn protected_new(e: &Entry<EntryInit, EntryNew>) -> bool { e.classes() matches Some(c) && !c.disjoint(protected_entry_classes()) }
 
 //@extract protected_filter_entry
+
+// "every attribute and class it adds is granted by an access control profile matching that user and that entry" (create)
+pub open spec fn names_in<T: KvxNamed>(allowed: Seq<T>, n: String) -> bool { exists|i: int| 0 <= i < allowed.len() && (#[trigger] allowed[i]).name() == n }
+pub open spec fn create_profile_grants(p: &AccessControlCreateResolved, e: &Entry<EntryInit, EntryNew>) -> bool {
+    &&& p.receiver_condition is GroupChecked     // group membership was resolved when the profile was selected for this identity; entry-manager profiles never apply to a create
+    &&& (p.target_condition matches AccessControlTargetCondition::Scope(f) && e.matches_filter(&f))
+    &&& forall|n: String| #[trigger] e.attr_names().contains(n) ==> names_in(p.acp.attrs@, n)
+    &&& e.classes() is Some
+    &&& forall|n: String| #[trigger] e.classes()->Some_0.contains(n) ==> names_in(p.acp.classes@, n)
+}
+pub open spec fn create_fully_granted(acps: Seq<AccessControlCreateResolved>, e: &Entry<EntryInit, EntryNew>) -> bool {
+    exists|k: int| 0 <= k < acps.len() && create_profile_grants(&#[trigger] acps[k], e)
+}
+
+//@extract create_filter_entry
+
+// access/migration.rs: which attributes / classes a migration may set for a class set (not a user path; left unspecified)
+#[verifier::external_body] pub fn migration_entry_attrs(classes: &BTreeSet<String>) -> (r: (BTreeSet<Attribute>, BTreeSet<&'static str>)) { unimplemented!() }
+//@extract migration_filter_entry
+//@extract message_queue
+
+pub open spec fn strs_disjoint_from(s: Set<&str>, names: Set<String>) -> bool { forall|c: &str| #[trigger] s.contains(c) ==> !names.contains(c.as_key()) }
+//@extract apply_create_access
+
+// ---- which profiles are handed to the per-entry checks: resolve_access_conditions (access/mod.rs) ----
+pub struct OperationError { pub o: u8 }
+pub struct IdxMeta { pub o: u8 }
+pub struct ResolveFilterCacheReadTxn<'a> { pub o: &'a u8 }
+// Filter::resolve (filter.rs): substitutes the identity into the profile's target filter; an uninterpreted function of (filter, identity)
+pub uninterp spec fn resolved_filter(f: Filter<FilterValid>, ident: &Identity) -> Filter<FilterValidResolved>;
+impl Filter<FilterValid> {
+    #[verifier::external_body] pub fn resolve(&self, ev: &Identity, idxmeta: Option<&IdxMeta>, rsv_cache: Option<&mut ResolveFilterCacheReadTxn<'_>>) -> (r: Result<Filter<FilterValidResolved>, OperationError>)
+        ensures r matches Ok(f) ==> f == resolved_filter(*self, ev) { unimplemented!() }
+}
+// "an access control profile matching that user": the profile's receiver names a group the identity is a member of
+pub open spec fn receiver_matches_user(rcv: &AccessControlReceiver, ident: &Identity) -> bool {
+    rcv matches AccessControlReceiver::Group(g) && ident.memberof() matches Some(m) && !m.disjoint(g@)
+}
+pub open spec fn conditions_resolved(ident: &Identity, rcv: &AccessControlReceiver, tgt: &AccessControlTarget, rc: AccessControlReceiverCondition, tc: AccessControlTargetCondition) -> bool {
+    &&& (rc is GroupChecked ==> receiver_matches_user(rcv, ident))
+    &&& (rc is EntryManager ==> rcv is EntryManager)
+    &&& (tgt matches AccessControlTarget::Scope(f) && tc == AccessControlTargetCondition::Scope(resolved_filter(*f, ident)))
+}
+//@extract resolve_access_conditions
 
 }
 fn main(){}
